@@ -85,6 +85,13 @@ CHECKS = {
         "Trusted: right-handedness test and face table in mc/blockmesh_ref.py. Canonical poses are valid input by construction; Box/Wedge/stacks only in their native frame.",
         "DESIGN.md 5 C11",
     ),
+    "C16": (
+        "exploration",
+        "exhaustive enumeration over a finite table: curve kinds (discrete, linear/spline interpolated with and without equalisation, analytic helix, line, circle) x unevenly spaced point sets x frames x all ordered parameter pairs/triples of a lattice x query points; relations between evaluations of the real curve classes and a dense sampling; OnCurve edges read back from the written dictionary",
+        "discretize(a,b) ends at get_point(a/b); interpolated curves pass through their points at the interpolator's parameters; get_length symmetric, additive (at any split for linear, at defining points for spline curves, rel 1e-3 for analytic ones) and equal to the exact sub-polyline for linear curves; get_closest_param no farther than the best of 2001 samples; OnCurve edge points on the curve, between the vertex parameters, Edge.length = curve length.",
+        "Lattice of parameters/queries; dense sampling is the reference for closeness.",
+        "DESIGN.md 5 C16",
+    ),
     "C02": (
         "model_checking",
         "stateless model checking of the implementation: choice-point explorer over set iteration orders (iterative deviation bounding) x exhaustive insertion orders / corner numberings / chop placements of small lattice assemblies, edge-family reference model",
